@@ -95,6 +95,7 @@ def nav_checks(o, d: D.date, wd, nths, tagp=""):
 
 
 class Shapes(Sub):
+    ambient = True
     """every month shape x weekday x n, Date and UTC DateTime"""
     name = "month_shapes"
     kind = "enum"
@@ -155,6 +156,7 @@ def zone_case(draw):
 
 
 class Zones(Sub):
+    ambient = True
     name = "zones_midnight_dst"
     n = {"quick": 3000, "thorough": 60000}
     shards = {"quick": 3, "thorough": 8}
@@ -234,6 +236,7 @@ class Zones(Sub):
 
 
 class RandomYears(Sub):
+    ambient = True
     name = "random_years"
     backends = ("py",)
     n = {"quick": 1500, "thorough": 40000}
